@@ -312,7 +312,7 @@ def probe_d34(ctx):
     worlds.materialize(w, d)
     obs = worlds.run_real(w, {"verbose": 1, "post_mortem": True, "_stdin": "c\n" * 10, "_timeout": 60}, d)
     shutil.rmtree(d, ignore_errors=True)
-    started = [e for e in obs.events if e.get("ev") == "tstart"]
+    started = [e for e in obs.events if e.get("ev") == "ph"]
     return bool(started and obs.exit == 0 and "(Pdb)" in obs.stdout), (
         "-D: a failing test (the debugger is left with 'c') ends the run with exit status %r" % obs.exit)
 
